@@ -47,7 +47,7 @@ def ob_calibration(W, backend, L, starts, N):
     W.goal("XX=|A/2(e^{i phi}S1+e^{-i phi}W2)|^2", W.eq(got[0], tot / len(starts)))
 
 
-def ob_power(W):
+def ob_power(W, first=()):
     """SpectrumResult: ps = psd*ENBW = 2*XX/S12 ; ENBW = fs*S2/S12 -- so XX=(A/2)^2*S1^2 gives ps=A^2/2"""
     b = R.bin_inputs(W, cross=False, pos=True)
     fs = W.real("fs"); A = W.real("A")
@@ -61,6 +61,8 @@ def ob_power(W):
     else:
         b["XY"] = complex(b["XX"], 0)
     r = R.mk(W, [b], False, fs)
+    for a in first:
+        getattr(r, a)         # the user looked at other attributes of the result first: lazily cached helpers must not be altered by them
     W.goal("ps=A^2/2", W.eq(R.el(r.ps), A * A / 2))
     W.goal("ENBW=fs*S2/S12", W.eq(R.el(r.ENBW), fs * b["S2"] / b["S12"]))
     W.goal("ps=psd*ENBW", W.eq(R.el(r.ps), R.el(r.psd) * R.el(r.ENBW)))
@@ -83,7 +85,7 @@ def ob_kernel_scaling(W, backend, fam, mode, L, starts, order, N, which):
         W.goal("scale-%s/%s" % (which, nm), W.eq(g, e))
 
 
-def ob_result_scaling(W, which):
+def ob_result_scaling(W, which, first=()):
     """c*x: Gxx*c^2, Gxy*c, coh same, Hxy/c ; c*y: Gyy*c^2, Gxy*c, Hxy*c ; fs->a*fs: densities/a, ENBW*a, coh/Hxy same"""
     b = R.bin_inputs(W, cross=True, pos=True)
     fs = W.real("fs"); c = W.real("c")
@@ -100,6 +102,8 @@ def ob_result_scaling(W, which):
     else:
         fs2 = fs * c
     r, r2 = R.mk(W, [b], True, fs), R.mk(W, [b2], True, fs2)
+    for a in first:
+        getattr(r2, a)
     e = R.el
     if which == "x":
         W.goal("Gxx*c^2", W.eq(e(r2.Gxx), e(r.Gxx) * c * c)); W.goal("Gyy same", W.eq(e(r2.Gyy), e(r.Gyy)))
@@ -121,6 +125,13 @@ def obligations(tier):
     obs = [{"name": "result/power", "fn": "ob_power", "params": {}}]
     for which in ("x", "y", "fs"):
         obs.append({"name": "result/scaling-%s" % which, "fn": "ob_result_scaling", "params": {"which": which}})
+    # the same laws when other (lazily computed) attributes of the result were read first
+    FIRST = (["Gxx_emp_dev"], ["XY_emp_var", "XY_emp_dev"], ["Gxx_dev", "Gxx_error"], ["asd", "ENBW"], ["Gxy_emp_dev", "Gxy_dev", "coh_dev", "Hxy_dev"])
+    for fi in FIRST:
+        if not any(a.startswith(("Gxy", "coh", "Hxy")) for a in fi):
+            obs.append({"name": "result/power/after-%s" % "+".join(fi), "fn": "ob_power", "params": {"first": list(fi)}})
+        for which in ("x", "y", "fs"):
+            obs.append({"name": "result/scaling-%s/after-%s" % (which, "+".join(fi)), "fn": "ob_result_scaling", "params": {"which": which, "first": list(fi)}})
     Lmax = 4 if tier == "quick" else 6
     for backend in K.BACKENDS:
         for L in range(1, Lmax + 1):
